@@ -117,7 +117,10 @@ def tlc(work, name, module, cfg, workers=None, timeout=600, extra=(), files=None
     cmd.append(module + ".tla")
     env = dict(os.environ)
     # deep TLA+ recursion over token sequences needs a large Java thread stack
-    env["JAVA_TOOL_OPTIONS"] = (env.get("JAVA_TOOL_OPTIONS", "") + " -Xss512m").strip()
+    # ... and TLC's own temporary directories belong into the scratch directory of this run, not into /tmp
+    jtmp = os.path.join(d, "jtmp")
+    os.makedirs(jtmp, exist_ok=True)
+    env["JAVA_TOOL_OPTIONS"] = (env.get("JAVA_TOOL_OPTIONS", "") + " -Xss512m -Djava.io.tmpdir=" + jtmp).strip()
     rc, out, wall = run(cmd, cwd=d, timeout=timeout, env=env)
     with open(os.path.join(d, "tlc.out"), "w") as fh:
         fh.write(out)
